@@ -709,7 +709,8 @@ class Predicate(metaclass=abc.ABCMeta):
             return self.merge(self, other, And)
 
         def __or__(self, other: 'dsl.Predicate.Factors') -> 'dsl.Predicate.Factors':
-            return self.merge(self, other, Or)
+            common = self.keys() & other.keys()  # a disjunction restricts a table only if both sides do
+            return self.merge(self.__class__(*(self[k] for k in common)), self.__class__(*(other[k] for k in common)), Or)
 
         def __getitem__(self, table: 'dsl.Table') -> 'dsl.Predicate':
             return self._items[table]
